@@ -50,6 +50,7 @@ func runC07(c *Ctx) {
 	c07Schedule(c)
 	c07Send(c)
 	c07SendWorker(c)
+	taskOwnsItsVariables(c, "R-C07-3")
 }
 
 func c07Handle(c *Ctx) {
@@ -528,4 +529,70 @@ func ctxErrTested(p *an.Path) bool {
 		}
 	}
 	return false
+}
+
+// taskOwnsItsVariables (shared; R-C07-3 / R-C06-2): a scheduled task runs later,
+// so whatever it reads through a captured variable is read when it fires. A
+// variable that schedule() assigns on every loop iteration (the destination
+// taken from the request channel) must therefore not be captured by
+// reference by a function value: every pending task would send to whichever
+// destination was dequeued last. Structural form: no closure value made in
+// schedule() (or below) that is used as a value binds a variable which is
+// allocated outside the loop and stored to inside it.
+func taskOwnsItsVariables(c *Ctx, rule string) {
+	sch := c.needMethod(rule, "internal/corerad", "Advertiser", "schedule")
+	if sch == nil {
+		return
+	}
+	inCycle := func(b *ssa.BasicBlock) bool {
+		seen := map[*ssa.BasicBlock]bool{}
+		var st []*ssa.BasicBlock
+		st = append(st, b.Succs...)
+		for len(st) > 0 {
+			x := st[len(st)-1]
+			st = st[:len(st)-1]
+			if x == b {
+				return true
+			}
+			if seen[x] {
+				continue
+			}
+			seen[x] = true
+			st = append(st, x.Succs...)
+		}
+		return false
+	}
+	n := 0
+	for _, f := range an.WithAnon(sch) {
+		for _, b := range f.Blocks {
+			for _, in := range b.Instrs {
+				mc, ok := in.(*ssa.MakeClosure)
+				if !ok {
+					continue
+				}
+				n++
+				cl, _ := mc.Fn.(*ssa.Function)
+				if cl == nil || usedAsValue(c, cl) == "" {
+					continue // only ever called directly: runs now, not later
+				}
+				for _, bnd := range mc.Bindings {
+					al, ok := bnd.(*ssa.Alloc)
+					if !ok || al.Referrers() == nil || inCycle(al.Block()) {
+						continue
+					}
+					for _, r := range *al.Referrers() {
+						st, ok := r.(*ssa.Store)
+						if !ok || st.Addr != ssa.Value(al) || !inCycle(st.Block()) {
+							continue
+						}
+						c.R.Fail(rule, c.fname(cl)+":captures-loop-assigned:"+al.Comment, c.fname(cl), c.pos(mc.Pos()),
+							fmt.Sprintf("the function value captures variable %q by reference; schedule assigns it on every iteration (%s)", al.Comment, c.pos(st.Pos())),
+							"a task is handed the value of its request (parameter of a factory, or a variable declared inside the iteration)",
+							"pending tasks read the shared variable when they fire: they all transmit to the destination dequeued last")
+					}
+				}
+			}
+		}
+	}
+	c.R.Check(n >= 1, rule, c.fname(sch)+":closures", c.fname(sch), c.pos(sch.Pos()), fmt.Sprintf("%d closure value(s) made in schedule", n), ">= 1", "anchor-missing")
 }
